@@ -819,7 +819,25 @@ def monitor_c17(sc, obs):
     return v
 
 
-MONITORS = {'C02': monitor_c02, 'C03': monitor_c03, 'C05': monitor_c05, 'C06': monitor_c06, 'C08': monitor_c08,
+# ------------------------------------------------------------------------------------------ C01 (whole systems)
+def monitor_c01(sc, obs):
+    """a run of duration d started at t0 (here through System.simulate) ends with the clock at t0 + d and nothing live that was due by then"""
+    v = []
+    for i, o in enumerate(obs):
+        if o['op'][0] != 'run' or o['st'] != 0 or i == 0:
+            continue
+        t0, d = obs[i - 1]['now'], o['op'][1]
+        if o['now'] != t0 + d:
+            _bad(v, 'C01/run-end-time', 'op %d: run(%d/8) started at %d/8 ended with the clock at %d/8' % (i, d, t0, o['now']))
+            return v
+        due = [q for q in o['queue'] if not q[-1] and q[0] <= o['now']]
+        if due:
+            _bad(v, 'C01/run-left-due-events', 'op %d: run(%d/8) started at %d/8 left live events due by then in the queue: %s' % (i, d, t0, due[:3]))
+            return v
+    return v
+
+
+MONITORS = {'C01': monitor_c01, 'C02': monitor_c02, 'C03': monitor_c03, 'C05': monitor_c05, 'C06': monitor_c06, 'C08': monitor_c08,
             'C11': monitor_c11, 'C13': monitor_c13, 'C15': monitor_c15, 'C16': monitor_c16, 'C17': monitor_c17}
 
 
